@@ -1836,3 +1836,67 @@ Proof.
     destruct (add_env_frame c st1 st2 P1 H3) as [P2 _].
     destruct (defaults_inert c st2 st3 P2 H4) as [Hv _]. rewrite Hv, H5. reflexivity.
 Qed.
+
+(** * 13. The validity gate gives the distinctness of ids the per-argument theorems assume *)
+
+Lemma count_lt2_nodup {A} (f : A -> id) : forall l,
+  (forall a, In a l -> Nat.ltb (count_if (fun x => beq (f x) (f a)) l) 2 = true) -> NoDup (map f l).
+Proof.
+  induction l as [|h t IH]; intros H; [constructor|]. cbn [map]. constructor.
+  - intros Hin. apply in_map_iff in Hin. destruct Hin as [x [Hfx Hx]].
+    specialize (H h (or_introl eq_refl)). unfold count_if in H. cbn [filter] in H. rewrite beq_refl in H. cbn [length] in H.
+    assert (Hpos : (1 <= length (filter (fun x0 => beq (f x0) (f h)) t))%nat).
+    { clear -Hfx Hx. induction t as [|y t IH]; [destruct Hx|]. cbn [filter]. destruct Hx as [->|Hx].
+      - rewrite Hfx, beq_refl. cbn. lia.
+      - destruct (beq (f y) (f h)); cbn [length]; [lia|apply IH; exact Hx]. }
+    apply Nat.ltb_lt in H. lia.
+  - apply IH. intros a Ha. specialize (H a (or_intror Ha)). unfold count_if in *. cbn [filter] in H.
+    apply Nat.ltb_lt in H. apply Nat.ltb_lt. destruct (beq (f h) (f a)); cbn [length] in H; lia.
+Qed.
+
+(** [assert_app] (the model of clap's debug assertions on a built command, which [get_matches_with]
+    re-checks for every subcommand it descends into) implies [ids_distinct] *)
+Theorem assert_app_ids_distinct c : assert_app c = true -> ids_distinct c.
+Proof.
+  intros H. unfold assert_app in H.
+  repeat match type of H with (_ && _) = true => apply andb_true_iff in H; let H' := fresh "Hc" in destruct H as [H H'] end.
+  (* H is now the first conjunct; the forallb over args / groups are among the Hc's *)
+  assert (Hargs : forall a, In a (c_args c) ->
+            Nat.ltb (count_if (fun x => beq (a_id x) (a_id a)) (c_args c)) 2 = true).
+  { intros a Ha.
+    match goal with Hf : forallb _ (c_args c) = true |- _ => rewrite forallb_forall in Hf; specialize (Hf a Ha); rename Hf into Hfa end.
+    repeat match type of Hfa with (_ && _) = true => apply andb_true_iff in Hfa; let H' := fresh "Hd" in destruct Hfa as [Hfa H'] end.
+    assumption. }
+  assert (Hgroups : forall g, In g (c_groups c) -> find_arg c (g_id g) = None).
+  { intros g Hg.
+    match goal with Hf : forallb _ (c_groups c) = true |- _ => rewrite forallb_forall in Hf; specialize (Hf g Hg); rename Hf into Hfg end.
+    repeat match type of Hfg with (_ && _) = true => apply andb_true_iff in Hfg; let H' := fresh "He" in destruct Hfg as [Hfg H'] end.
+    match goal with Hn : negb (is_some (find_arg c (g_id g))) = true |- _ =>
+      destruct (find_arg c (g_id g)); [discriminate Hn|reflexivity] end. }
+  split.
+  - apply count_lt2_nodup. intros a Ha. rewrite <- (Hargs a Ha). f_equal.
+  - intros a Ha. unfold find_group. destruct (List.find (fun g => beq (g_id g) (a_id a)) (c_groups c)) as [g|] eqn:Ef; [|reflexivity].
+    exfalso. apply List.find_some in Ef. destruct Ef as [Hg Hb]. apply beq_eq in Hb.
+    specialize (Hgroups g Hg). rewrite Hb in Hgroups. unfold find_arg in Hgroups.
+    apply (List.find_none _ _ Hgroups) in Ha. rewrite beq_refl in Ha. discriminate.
+Qed.
+
+(** [source_honest] for every level the parser reaches: the root is gated by [valid], every
+    subcommand by the [assert_app] check in [get_matches_with] *)
+Corollary source_honest_valid fuel' c toks st0 st :
+  assert_app c = true -> mt_args (mt st0) = [] ->
+  get_matches_with (S fuel') c toks st0 = ROk st ->
+  exists st_c st1,
+    cmdline_phase fuel' c toks st0 = ROk st_c /\ resolve_pending c st_c = ROk st1
+    /\ forall a e, In a (c_args c) -> fm_get (a_id a) (mt_args (mt st)) = Some e ->
+       match m_source e with
+       | Some SCmdLine => fm_get (a_id a) (mt_args (mt st1)) = Some e
+       | Some SEnv => fm_get (a_id a) (mt_args (mt st1)) = None
+                      /\ exists v vs, a_env a = Some v /\ delimit c a [v] None = Some vs /\ m_raw e = [vs]
+       | Some SDefault => fm_get (a_id a) (mt_args (mt st1)) = None /\ a_env a = None
+       | None => False
+       end.
+Proof. intros Hv. apply source_honest. apply assert_app_ids_distinct. exact Hv. Qed.
+
+Lemma valid_assert_app c0 : valid c0 = true -> assert_app (build_self c0) = true.
+Proof. unfold valid. cbn [valid_tree]. intros H. apply andb_true_iff in H. exact (proj1 H). Qed.
